@@ -74,8 +74,10 @@ pub fn emit(toks: &[&str]) -> String {
     use slicec::diagnostic_emitter::DiagnosticEmitter;
     use slicec::slice_options::DiagnosticFormat;
     let mut options = parse_opts(toks[1]);
-    options.diagnostic_format = if toks[0] == "json" { DiagnosticFormat::Json } else { DiagnosticFormat::Human };
-    options.disable_color = true;
+    options.diagnostic_format = if toks[0].starts_with("json") { DiagnosticFormat::Json } else { DiagnosticFormat::Human };
+    // "human+color" / "json+color": colours are not disabled (whether the console library uses them is decided by the environment:
+    // the check sets CLICOLOR_FORCE=1)
+    options.disable_color = !toks[0].ends_with("+color");
     let dir = std::env::temp_dir().join(format!("vh-emit-{}", std::process::id()));
     let _ = std::fs::remove_dir_all(&dir);
     std::fs::create_dir_all(&dir).unwrap();
@@ -176,7 +178,8 @@ pub fn run(toks: &[&str]) -> String {
     fn walk(base: &std::path::Path, p: &std::path::Path, out: &mut Vec<String>) {
         if let Ok(rd) = std::fs::read_dir(p) { for e in rd.flatten() {
             let path = e.path();
-            if path.is_dir() { walk(base, &path, out); } else {
+            let is_link = std::fs::symlink_metadata(&path).map(|m| m.file_type().is_symlink()).unwrap_or(false);
+            if path.is_dir() && !is_link { walk(base, &path, out); } else if path.is_dir() { /* a link to a directory: not followed */ } else {
                 let rel = path.strip_prefix(base).unwrap().to_string_lossy().to_string();
                 let data = std::fs::read(&path).unwrap_or_default();
                 let old = e.metadata().ok().and_then(|m| m.modified().ok()).map(|t| t < std::time::UNIX_EPOCH + std::time::Duration::from_secs(1_100_000_000)).unwrap_or(false);
